@@ -802,6 +802,46 @@ func ruleWR6(c *Ctx) {
 			c.check(bad == "", fn, "iii:flag-from-scanned-bytes", c.Pos(cell.Pos()), "tolerance flag is written only in the split function from the scanned bytes", bad)
 		}
 	}
+	// (v) the scanner's buffer is reused by the next Scan(): a token kept across iterations must be copied
+	nb := 0
+	for _, g := range append([]*ssa.Function{rd}, Closures(rd)...) {
+		for _, call := range callsNamed(g, "(*bufio.Scanner).Bytes") {
+			cv, ok := call.(*ssa.Call)
+			if !ok {
+				continue
+			}
+			nb++
+			bad := ""
+			var visit func(v ssa.Value, d int)
+			seen := map[ssa.Value]bool{}
+			visit = func(v ssa.Value, d int) {
+				if v == nil || d > 6 || seen[v] {
+					return
+				}
+				seen[v] = true
+				for _, r := range *v.Referrers() {
+					switch x := r.(type) {
+					case *ssa.Phi:
+						if inCycle(x.Block()) {
+							bad = "the slice returned by scanner.Bytes() is carried into the next iteration (" + x.Comment + ") without being copied"
+						}
+					case *ssa.Store:
+						if x.Val == v {
+							bad = "the slice returned by scanner.Bytes() is stored in a variable that outlives the iteration without being copied"
+						}
+					case *ssa.Slice:
+						visit(x, d+1)
+					case *ssa.Call:
+						if calleeFullName(&x.Call) == "builtin append" && len(x.Call.Args) > 0 && x.Call.Args[0] == v {
+							visit(x, d+1) // appending onto the scanner's own slice keeps the alias
+						}
+					}
+				}
+			}
+			visit(cv, 0)
+			c.check(bad == "", fn, fmt.Sprintf("v:scanner-token-copied#%d", nb), c.Pos(cv.Pos()), "the scanner token is copied (or consumed) before the next Scan()", bad+": the next Scan() overwrites it, so a long following line corrupts the held-back line and every command fails with a bogus parse error")
+		}
+	}
 	// (iv) read entry points load once
 	lg := c.F.Anchors["loadGraph"]
 	for _, n := range []string{"RunList", "RunShow"} {
